@@ -24,3 +24,8 @@ CHECKS['C07'] = dict(
     text='Detector: all 16105 prefixes of length 0-4 over the 11 byte classes x tails x final, exhaustive, plus never-wrong under extension. Round trip over 15 encodings and generated chunk schedules for incremental/stream encoders and decoders against the one-shot result. Exploration beyond the finite table.',
     note='Trusted: Python standard codecs, my 25-line reference detector; charset names in texts are known codecs; end-of-stream losses of the stream API and CJK cuts are listed findings F07-2/3/8.',
 )
+CHECKS['C20'] = dict(
+    technique='exhaustive enumeration of the finite decision table against a reference decision procedure + property-based testing (Hypothesis) of the sniffers',
+    text='All 9.2k rows of media type x transport charset x XML part x meta x str/bytes x case are enumerated and compared field by field with a 25-line decision procedure written from the getEncodingInfo docstring; generated documents for detectXMLEncoding (incl. stream position), getMetaInfo and encodingByMediaType. The table part is exhaustive; the sniffer part is exploration.',
+    note='Trusted: the reference procedure, email.message for the stub response, codecs.lookup for name comparison; documents >= 4 characters; BOM in str documents = byte-valued characters.',
+)
